@@ -52,6 +52,23 @@ pub extern "C" fn verif_ffi_enter() {
     let _ = r;
 }
 
+/// A scheduling point at one of the simulator's own seams (random draw, clock read, hook): the
+/// library calls out to the simulator here, on every backend, so fine-grained episodes of the pure
+/// Rust backends and of libsodium switch threads at these points. Never yields while a wrapped C
+/// call is in progress on this thread.
+pub fn seam_yield() {
+    let r = std::panic::catch_unwind(|| {
+        if DEPTH.try_with(|c| c.get()) == Ok(0) {
+            let hook = HOOK.try_with(|c| c.try_borrow().ok().and_then(|h| h.clone())).ok().flatten();
+            if let Some((y, t)) = hook {
+                let _ = YIELDS.try_with(|c| c.set(c.get() + 1));
+                y.yield_now(t);
+            }
+        }
+    });
+    let _ = r;
+}
+
 #[unsafe(no_mangle)]
 pub extern "C" fn verif_ffi_exit() {
     let _ = DEPTH.try_with(|c| c.set(c.get().saturating_sub(1)));
